@@ -186,6 +186,19 @@ def scenarios():
             yield dict(classes=dag, methods=[kwm("m0", ("k", "kw", t0)), kwm("m1", ("k", "kw", t1), ("j", "kw", "object"))], call=dict(pos=[], kw={"k": c}), family="kwonly/extra_required_keyword")
             yield dict(classes=dag, methods=[kwm("m0", ("k", "kw", t0)), kwm("m1", ("x", "pos", "object"), ("k", "kw", t1))], call=dict(pos=[], kw={"k": c}), family="kwonly/extra_positional")
             yield dict(classes=dag, methods=[kwm("m0", ("k", "kw", t0), ("j", "kw", t1)), kwm("m1", ("k", "kw", t1)), kwm("m2", ("j", "kw", t0))], call=dict(pos=[], kw={"k": c, "j": c}), family="kwonly/two_keywords")
+    # a keyword every method declares, optional in one of them, omitted by the call
+    def kwd(name, *ps):
+        return dict(name=name, params=[dict(name=n_, kind=k_, type=t_, **({"default": True} if d_ else {})) for n_, k_, t_, d_ in ps])
+
+    for t0, t1 in itertools.product(["A", "B", "object"], repeat=2):
+        for c in ("A", "B", "C"):
+            yield dict(classes=dag, methods=[kwd("m0", ("x", "pos", t0, False), ("k", "kw", "object", True)), kwd("m1", ("x", "pos", t1, False), ("k", "kw", "object", False))], call=dict(pos=[c]), family="kw/declared_by_all_optional_in_one")
+            yield dict(classes=dag, methods=[kwd("m0", ("x", "pos", t0, False), ("k", "kw", "object", True)), kwd("m1", ("x", "pos", t1, False), ("k", "kw", "object", True))], call=dict(pos=[c]), family="kw/optional_in_all")
+    # the same signature registered again under another parameter name: the most recent registration wins
+    for t0 in ("A", "B"):
+        for c in ("B", "C"):
+            yield dict(classes=dag, methods=[kwm("m0", ("x", "pos", t0)), kwm("m1", ("y", "pos", t0))], call=dict(pos=[c]), family="repeated-signature/renamed")
+            yield dict(classes=dag, methods=[kwm("m0", ("x", "pos", t0), ("z", "pos", "object")), kwm("m1", ("y", "pos", t0), ("z", "pos", "object"))], call=dict(pos=[c, "A"]), family="repeated-signature/renamed2")
     # optional trailing parameter / repeated signature / arity-filtered third method (F-lvl variant)
     dag = DAGS["deepvee"]
     yield dict(classes=dag, methods=[dict(name="m0", params=[dict(name="x", kind="pos", type="A")]), dict(name="m1", params=[dict(name="x", kind="pos", type="B")]), dict(name="m2", params=[dict(name="x", kind="pos", type="A2"), dict(name="k", kind="kw", type="object")])], call=dict(pos=["C"]), family="arity-filtered")
@@ -216,7 +229,7 @@ def classify(sc, perms=False):
             # registration order of *distinct* signatures must not matter (C06); identical signatures keep their order
             o, _ = run_scenario(sc, order)
             outs.add(o)
-        sigs = [json.dumps(m["params"]) + str(m.get("priority", 0)) for m in sc["methods"]]
+        sigs = [json.dumps([(p["name"] if p["kind"] == "kw" else None, p["kind"], p["type"], bool(p.get("default"))) for p in m["params"]]) + str(m.get("priority", 0)) for m in sc["methods"]]
         if len(outs) > 1 and len(set(sigs)) == len(sigs):
             probs.append("registration_order" + ("" if info["chain"] else ".level_unfaithful"))
     return probs, dict(expected=want, got=out, resolve=res, chain=info["chain"])
